@@ -91,7 +91,7 @@ func mutate(t *rapid.T, c []string) ([]string, []string) {
 	var muts []string
 	n := rapid.IntRange(1, 3).Draw(t, "nmut")
 	for i := 0; i < n; i++ {
-		op := rapid.IntRange(0, 14).Draw(t, "mut")
+		op := rapid.IntRange(0, 16).Draw(t, "mut")
 		pos := 0
 		if len(c) > 1 {
 			pos = rapid.IntRange(1, len(c)-1).Draw(t, "pos")
@@ -138,7 +138,20 @@ func mutate(t *rapid.T, c []string) ([]string, []string) {
 			v := rapid.SampledFrom([]string{strings.ToUpper(c[0]), c[0] + "x", "", "\x00", "stale." + c[0]}).Draw(t, "name")
 			muts = append(muts, fmt.Sprintf("name=%q", v))
 			c[0] = v
-		case op >= 13 && len(c) > 1 && len(c[pos]) > 0: // surgery inside one argument (what a mini-language inside an argument needs: "f=1" -> "=1")
+		case op >= 15 && len(c) > 1 && len(harvested) > 0: // a text the code under test matches on, preferably where a number is expected (validation errors echo the argument)
+			var numeric []int
+			for j := 2; j < len(c); j++ {
+				if _, err := strconv.ParseFloat(c[j], 64); err == nil {
+					numeric = append(numeric, j)
+				}
+			}
+			if len(numeric) > 0 && rapid.IntRange(0, 3).Draw(t, "numpos") > 0 {
+				pos = numeric[rapid.IntRange(0, len(numeric)-1).Draw(t, "whichnum")]
+			}
+			h := rapid.SampledFrom(harvested).Draw(t, "dict")
+			muts = append(muts, fmt.Sprintf("[%d]=dict %q", pos, h))
+			c[pos] = h
+		case op >= 13 && op <= 14 && len(c) > 1 && len(c[pos]) > 0: // surgery inside one argument (what a mini-language inside an argument needs: "f=1" -> "=1")
 			a := c[pos]
 			q := rapid.IntRange(0, len(a)-1).Draw(t, "bytepos")
 			switch rapid.IntRange(0, 4).Draw(t, "surgery") {
